@@ -132,7 +132,7 @@ def local_update(check):
             ai, outs = run_step(proj, c)
             T = rk.extract(outs[0], c.name)
         except AnalysisError as e:
-            check.undecided("DT-LOCAL", c.qualname, "abstract interpretation failed: %s" % e, loc)
+            check.failed("DT-LOCAL", c.qualname, e, loc, "abstract interpretation failed")
             continue
         bad = [t for r, t in T.problems if r == "AFF-UPDATE" and ("reduced time step" in t or "not advanced with the step argument" in t)]
         if bad:
